@@ -8,6 +8,9 @@ impl DetectProp for C04 {
     fn id(&self) -> &'static str {
         "C04"
     }
+    fn directed(&self, thorough: bool) -> Vec<Case> {
+        large_unicode_cases(thorough)
+    }
     fn slice(&self, o: &Outcome) -> String {
         match o {
             Outcome::Ok(v) => format!(
